@@ -314,7 +314,9 @@ func RunScenario(t *testing.T, s *Scenario, chk Checker, keepLog bool) (rep *Run
 				}
 				m := elig[h.ResumeK%len(elig)]
 				h.Req.Cursor = m.Cursor
-				h.Req.Start = 0
+				if h.ResumeK%2 == 0 {
+					h.Req.Start = 0 // otherwise the client re-sends its original start block along with the cursor
+				}
 				if x.ResumedFrom == nil {
 					x.ResumedFrom = map[int]Msg{}
 				}
